@@ -746,6 +746,7 @@ func (fr *Frame) evalTypeAssert(st *State, x *ast.TypeAssertExpr, commaOk bool) 
 		un := "unbox$" + smtIdent(s.Name)
 		DeclFunc(un, s, IntSort)
 		val := App(un, v)
+		st.Assume(e.typeFacts(val, tt, st))
 		if commaOk {
 			return []*Term{Ite(ok, val, e.zeroValue(tt)), ok}
 		}
